@@ -509,7 +509,7 @@ func TestLimitFamily(t *testing.T) {
 		mode     int
 		compress bool
 	}
-	cases := []lc{{max, 1, false}}
+	cases := []lc{{max, 1, false}, {max, 1, true}, {max - 1, 1, true}}
 	if vkit.Thorough() {
 		cases = []lc{{max, 0, false}, {max, 1, false}, {max - 1, 0, false}, {max, 1, true}, {max, 0, true}, {max / 2, 0, true}}
 	}
@@ -533,6 +533,7 @@ func TestReplay(t *testing.T) {
 		ConcCase
 		WSCase
 		EncCase
+		TPCase
 	}
 	if _, err := vkit.LoadReplay(path, &u); err != nil {
 		t.Fatalf("bad replay file: %v", err)
@@ -549,6 +550,8 @@ func TestReplay(t *testing.T) {
 		if f := runWS(t, u.WSCase); f != nil {
 			vkit.Violation(t, f.key, f.detail, u.WSCase)
 		}
+	case u.TPCase.Proto != "":
+		checkTP(t, u.TPCase)
 	case len(u.Pkts) > 0:
 		if f, _ := runEnc(u.EncCase); f != nil {
 			vkit.Violation(t, f.key, f.detail, u.EncCase)
